@@ -75,6 +75,7 @@ ORIG_EXPECT = [
     ("C17", "R17.10", "apply_patches"), ("C17", "R17.10", "_apply_rename_or_copy"), ("C17", "R17.10", "apply_included_paths"),
     ("C14", "R14.6", "_combine_commit_bitmaps"), ("C14", "R14.6", "GraphTraversalReachability.get_reachable_objects"),
     ("C13", "R13.3", "_find_lcas"), ("C20", "R20.5", "_escape_value"), ("C06", "R06.5", "DiskRefsContainer.set_if_equals"),
+    ("C09", "R09.11", "BaseRepo.fetch"), ("C09", "R09.12", "Stash.push"),
 ]
 
 
